@@ -93,3 +93,11 @@ Section Example.
     - vm_compute. reflexivity.
   Qed.
 End Example.
+
+(* every place in the two files that touches a layer's weight or calls F.linear is MaskedLinear.forward (where the weight is
+   multiplied by the mask) or a constructor / initialiser: no evaluation path can bypass the mask (table regenerated from both
+   sources on every run) *)
+Theorem C06_weights_are_only_used_through_the_mask :
+  forallb (fun r => snd r) madeT_weight_uses = true /\ forallb (fun r => snd r) madeN_weight_uses = true.
+Proof. split; reflexivity. Qed.
+Print Assumptions C06_weights_are_only_used_through_the_mask.
